@@ -168,3 +168,22 @@ def abridge_spec(spec, maxv=8):
 
 def cfg_text(cfg):
     return [t for _p, t in E.config_attr_texts(cfg)]
+
+
+def lib_source(item_text, context_items=()):
+    """A library crate holding one derive item (accept/reject checks)."""
+    return (E.HEADER + "pub mod m {\nuse ::enum_tools::EnumTools;\n" + "\n".join(context_items) + "\n" + item_text + "\n}\n")
+
+
+def accepts(item_text, context_items=()):
+    """(compiles?, stderr) of a check-only compile."""
+    c = build.rustc(lib_source(item_text, context_items), mode="check")
+    return c.ok, c.stderr
+
+
+def case_rng(case):
+    """PRNG for the in-case sampling decisions, keyed by the whole case (Hypothesis-drawn integers are
+    heavily biased to small values, so the drawn seed alone would repeat the same choices)."""
+    import random
+    h = hashlib.sha256(json.dumps(case, sort_keys=True, default=str).encode()).digest()
+    return random.Random(int.from_bytes(h[:8], "big"))
